@@ -829,7 +829,7 @@ package go9p
 //@   at unlock(conn.Unlock) requires [C07 C03 unchained] !(inmap(conn.reqs, tag) && conn.reqs[tag] != nil && conn.reqs[tag] != req) ==> r == nil && req.flushreq == old(req.flushreq)
 //@   at call((*SrvReq).Respond)#1 requires [C07 immediate] arg0 == req && r == nil
 // a Tflush that waits on its target is answered later by the target's Respond, which sends req.Rc as it is
-//@   at unlock(conn.Unlock) requires [C07 C03 prepacked] len(req.Rc.Buf) >= 7 ==> req.Rc.Type == 109 && len(req.Rc.Pkt) == 7 && u8(req.Rc.Pkt, 4) == 109
+//@   at unlock(conn.Unlock) requires [C07 C03 C06 prepacked] len(req.Rc.Buf) >= 7 ==> req.Rc.Type == 109 && len(req.Rc.Pkt) == 7 && u8(req.Rc.Pkt, 4) == 109
 //@   at call((*SrvReq).Respond)#2 requires [C07 cancel] arg0 == r && r.status & 1 != 0 && status & 10 == 0
 //@   at call(FlushOp.Flush) requires [C07 working] arg1 == r && status & 10 != 0
 //@   ghost nact int = 0
@@ -858,6 +858,8 @@ package go9p
 //@   ghost nans int = 0
 //@   at call(SrvReqOps.Open) ghost nfwd := nfwd + 1
 //@   at call((*SrvReq).RespondError) ghost nans := nans + 1
+// a refused open leaves the fid's state (open flag, mode, type) as it was
+//@   at call((*SrvReq).RespondError) requires [refused] req.Fid.Omode == old(req.Fid.Omode) && req.Fid.opened == old(req.Fid.opened) && req.Fid.Type == old(req.Fid.Type)
 //@   at call(SrvReqOps.Open) requires [guard.notopen] !old(req.Fid.opened)
 //@   at call(SrvReqOps.Open) requires [guard.dirread] old(req.Fid.Type) & 128 == 0 || old(req.Tc.Mode) == 0
 //@   at call(SrvReqOps.Open) requires [args] arg1 == req && req.Fid == old(req.Fid) && req.Tc == old(req.Tc) && req.Tc.Mode == old(req.Tc.Mode) && req.Fid.User == old(req.Fid.User) && !req.Fid.opened
@@ -871,6 +873,7 @@ package go9p
 //@   ghost nans int = 0
 //@   at call(SrvReqOps.Create) ghost nfwd := nfwd + 1
 //@   at call((*SrvReq).RespondError) ghost nans := nans + 1
+//@   at call((*SrvReq).RespondError) requires [refused] req.Fid.Omode == old(req.Fid.Omode) && req.Fid.opened == old(req.Fid.opened) && req.Fid.Type == old(req.Fid.Type)
 //@   at call(SrvReqOps.Create) requires [guard.notopen] !old(req.Fid.opened)
 //@   at call(SrvReqOps.Create) requires [guard.dir] old(req.Fid.Type) & 128 != 0
 //@   at call(SrvReqOps.Create) requires [guard.special] old(req.Conn.Dotu) || (old(req.Tc.Perm) & 61865984) == 0
@@ -888,6 +891,8 @@ package go9p
 //@   at call(SrvReqOps.Read) requires [guard.count] old(req.Tc.Count) + 24 <= old(req.Conn.Msize)
 //@   at call(SrvReqOps.Read) requires [args] arg1 == req && req.Fid == old(req.Fid) && req.Tc == old(req.Tc) && req.Tc.Count == old(req.Tc.Count) && req.Tc.Offset == old(req.Tc.Offset) && req.Fid.User == old(req.Fid.User)
 //@   at call(AuthOps.AuthRead) requires [guard.authcount] old(req.Tc.Count) + 24 <= old(req.Conn.Msize) && len(arg3) <= old(req.Tc.Count)
+// every request that satisfies the rules is forwarded: the framework itself refuses a Tread on a plain file only for its count
+//@   at call((*SrvReq).RespondError) requires [C05 C14 mustforward] old(req.Tc.Count) + 24 > old(req.Conn.Msize) || old(req.Fid.Type) & 8 != 0 || old(req.Fid.Type) & 128 != 0
 //@   ensures  nfwd + nans == 1
 
 //@ func (*Srv).write(srv, req)
@@ -901,6 +906,8 @@ package go9p
 //@   at call(SrvReqOps.Write) requires [guard.open] old(req.Fid.opened) && old(req.Fid.Type) & 128 == 0
 //@   at call(SrvReqOps.Write) requires [guard.mode] old(req.Fid.Omode) & 3 == 1 || old(req.Fid.Omode) & 3 == 2
 //@   at call(SrvReqOps.Write) requires [guard.count] old(req.Tc.Count) + 24 <= old(req.Conn.Msize)
+// the count rule covers authentication fids as well: AuthWrite is implementation code
+//@   at call(AuthOps.AuthWrite) requires [guard.authcount] old(req.Tc.Count) + 24 <= old(req.Conn.Msize)
 //@   at call(SrvReqOps.Write) requires [args] arg1 == req && req.Fid == old(req.Fid) && req.Tc == old(req.Tc) && req.Tc.Count == old(req.Tc.Count) && req.Tc.Offset == old(req.Tc.Offset) && req.Tc.Data == old(req.Tc.Data) && req.Fid.User == old(req.Fid.User)
 //@   ensures  nfwd + nans == 1
 
@@ -1148,6 +1155,9 @@ package go9p
 //@   at call((*SrvReq).RespondError) requires [norefleak] forall k int :: old(inmap(req.Conn.fidpool, k)) && !(req.Afid != nil && k == old(req.Tc.Afid)) ==> req.Conn.fidpool[k].refcount == old(req.Conn.fidpool[k].refcount)
 //@   at call(SrvReqOps.Attach) requires [norefleak] forall k int :: old(inmap(req.Conn.fidpool, k)) && !(req.Afid != nil && k == old(req.Tc.Afid)) ==> req.Conn.fidpool[k].refcount == old(req.Conn.fidpool[k].refcount)
 //@   at call(SrvReqOps.Attach) requires [guard.auth] implements(srv.ops, "AuthOps") ==> authok
+// an attach that names an afid reaches the implementation only with that fid looked up in the table (whether or not
+// the implementation authenticates)
+//@   at call(SrvReqOps.Attach) requires [C04 C05 afid] old(req.Tc.Afid) != 4294967295 ==> req.Afid != nil && (old(inmap(req.Conn.fidpool, req.Tc.Afid)) || old(req.Tc.Afid) == old(req.Tc.Fid))
 //@   at call(SrvReqOps.Attach) requires [args] arg1 == req && req.Tc == old(req.Tc) && !old(inmap(req.Conn.fidpool, req.Tc.Fid)) && old(req.Tc.Fid) != 4294967295
 //@   ensures  nfwd + nans == 1
 
@@ -1238,6 +1248,16 @@ package go9p
 //@   requires clnt != nil
 //@   ensures  fc != nil
 //@   assigns  fresh
+
+// the client adopts the server's answer only downwards: never a larger msize than it proposed, never 9P2000.u unless it asked
+//@ func Connect(c, msize, dotu) (clnt, err)
+//@   property C12
+//@   requires c != nil
+//@   at call(NewClnt) ensures ret != nil && ret.Msize == arg1 && ret.Dotu == arg2 && ret.tagpool != nil
+//@   at call((*Clnt).Rpc) assume len(arg1.Pkt) >= 7
+//@   ensures  [C12 msize] err == nil ==> clnt != nil && clnt.Msize <= msize
+//@   ensures  [C12 dialect] err == nil && clnt.Dotu ==> dotu
+//@   assigns  everything
 
 //@ func (*Clnt).Rpc(clnt, tc) (rc, err)
 //@   property C09 C14
@@ -1417,6 +1437,8 @@ package go9p
 //@   at call((*SrvReq).RespondRwalk) requires [complete] i == len(old(req.Tc.Wname)) ==> nfid.path == path && confined(nfid.path)
 //@   at call((*SrvReq).RespondRwalk) requires [srcfid] nfid != fid ==> fid.path == old(upath(req))
 // walks from one shared fid run concurrently (C19): a walk to a different fid reads the source fid only
+// a walk to a different fid gives that fid its own state: later moves of one fid do not move the other
+//@   at call((*SrvReq).RespondRwalk) requires [C16 C19 ownaux] old(req.Newfid) != old(req.Fid) && old(req.Newfid.Aux) == nil ==> dyntype(req.Newfid.Aux, "*ufsFid") && ival(req.Newfid.Aux, "*ufsFid") != ival(req.Fid.Aux, "*ufsFid")
 //@   at call((*SrvReq).RespondRwalk) requires [C19 sharedsrc] nfid != fid ==> fid.st == old(ival(req.Fid.Aux, "*ufsFid").st) && fid.file == old(ival(req.Fid.Aux, "*ufsFid").file)
 //@   at call((*SrvReq).RespondError) requires [C19 sharedsrc] old(req.Newfid) != old(req.Fid) ==> fid.st == old(ival(req.Fid.Aux, "*ufsFid").st) && fid.file == old(ival(req.Fid.Aux, "*ufsFid").file)
 //@   loop 1
@@ -1460,6 +1482,8 @@ package go9p
 //@   at call((time.Time).Unix) requires [C16 mtime] fieldn(arg0, 0) == mtw && fieldn(arg0, 1) == mte
 //@   ensures  [C15 C16 total] st == nil ==> nosys
 //@   ensures  [C15 C16 noerr] st != nil ==> err == nil
+// (with the FileInfo oracle: Sys() is a *syscall.Stat_t) every entry gets a record
+//@   ensures  [C15 C16 always] st != nil
 //@   ensures  st != nil ==> strsok(st) && statsize(st, dotu) <= 65535
 //@   ensures  errwf(err)
 //@   assigns  fresh
@@ -1542,6 +1566,16 @@ package go9p
 //@   at call((*os.File).ReadAt) ensures 0 <= ret0 && ret0 <= len(arg1)
 //@   at call((*os.File).Readdir) ensures forall k int :: 0 <= k && k < len(ret0) ==> ret0[k] != nil
 //@   at call(SetRreadCount) requires [count] arg1 <= old(req.Tc.Count)
+// a read at offset 0 lists the directory anew: one reopen, one Readdir, and every entry returned by it is packed into
+// the snapshot (none skipped, none merged)
+//@   ghost nopen int = 0
+//@   ghost nlist int = 0
+//@   ghost npk int = 0
+//@   at call(os.OpenFile) ghost nopen := nopen + 1
+//@   at call((*os.File).Readdir) ghost nlist := nlist + 1
+//@   at call(PackDir) ghost npk := npk + 1
+//@   at call(SetRreadCount)#2 requires [C15 rewound] isdir && old(req.Tc.Offset) == 0 ==> nopen == 1 && nlist == 1
+//@   at call(SetRreadCount)#2 requires [C15 everyentry] isdir && old(req.Tc.Offset) == 0 ==> npk == len(fid.dirs)
 //@   at call(SetRreadCount)#2 requires [C15 window] isdir && !deref(Akaros) && entrybound(fid, old(req.Tc.Offset)) ==> entrybound(fid, old(req.Tc.Offset) + arg1)
 //@   at call(SetRreadCount)#2 requires [C15 progress] isdir && !deref(Akaros) && arg1 == 0 ==> old(req.Tc.Offset) >= len(fid.dirents)
 //@   at call(SetRreadCount)#2 requires [C15 data] isdir ==> old(req.Tc.Offset) + arg1 <= len(fid.dirents) && (forall k int :: 0 <= k && k < arg1 ==> rc.Data[k] == fid.dirents[old(req.Tc.Offset) + k])
@@ -1556,6 +1590,7 @@ package go9p
 //@     invariant snapok(fid)
 //@     invariant snaprecs(fid)
 //@     invariant obj(fid.dirents) != obj(rc.Buf)
+//@     invariant npk == i && nopen == 1 && nlist == 1
 
 //@ func (*Ufs).FidDestroy(ufs, sfid)
 //@   property C06 C11
@@ -1576,7 +1611,10 @@ package go9p
 //@   at call(os.Chown) requires [args] confined(arg0) && arg0 == old(upath(req))
 //@   at call(path/filepath.Join)#2 ensures rooted(ret)
 //@   at call(path/filepath.Join)#1 ensures rooted(before(arg0[1])) && before(arg0[0]) == u.Root ==> confined(ret)
-//@   at call(path.Split) ensures confined(arg0) ==> confined(ret0)
+// the directory part of a confined path is confined unless the path is the root itself (whose directory part is the
+// root's parent, outside the tree)
+//@   at call(path.Split) ensures confined(arg0) && !isroot(arg0) ==> confined(ret0)
+//@   at call(path/filepath.Clean) ensures isroot(ret)
 //@   at call(path/filepath.Join)#3 ensures confined(before(arg0[0])) && plain(before(arg0[1])) ==> confined(ret)
 //@   ghost renamed bool = false
 //@   ghost dest int = 0
@@ -1591,6 +1629,10 @@ package go9p
 //@   at call(os.Chtimes) requires [C17 freshtimes] old(req.Tc.Dir.Mtime) == 4294967295 || old(req.Tc.Dir.Atime) == 4294967295 ==> nst == 1
 //@   at call(os.Chtimes) requires [args] confined(arg0) && arg0 == ite(renamed, dest, old(upath(req)))
 //@   at call((*SrvReq).RespondRwstat) requires [moved] renamed ==> fid.path == dest
+// a length change is truncate(2) on the fid's path (not on whatever handle the fid happens to hold)
+//@   ghost ntrunc int = 0
+//@   at call(os.Truncate) ghost ntrunc := ntrunc + 1
+//@   at call((*SrvReq).RespondRwstat) requires [C17 length] old(req.Tc.Dir.Length) != 18446744073709551615 ==> ntrunc == 1
 //@   at call(os.Stat) ensures ret1 == nil ==> ret0 != nil
 
 // ---------------------------------------------------------------------------
@@ -1798,7 +1840,7 @@ package go9p
 
 //@ pure walkdone(req) = req.Rc != nil && req.Rc.Type == 111 && req.Newfid != nil && req.Fid != nil && len(req.Rc.Wqid) == len(req.Tc.Wname)
 //@ func (*Srv).walkPost(srv, req)
-//@   property C04 C06 C16
+//@   property C04 C06 C16 C05
 //@   requires req != nil && req.Tc != nil && (req.Newfid != nil ==> !held(req.Newfid))
 //@   ensures  [retain] walkdone(req) && req.Newfid.fid != req.Fid.fid ==> req.Newfid.refcount == wrap64s(old(req.Newfid.refcount) + 1)
 //@   ensures  [noretain] !(walkdone(req) && req.Newfid.fid != req.Fid.fid) && req.Newfid != nil ==> req.Newfid.refcount == old(req.Newfid.refcount)
@@ -1947,6 +1989,7 @@ package go9p
 //@ immutable Pool.high by NewPool
 //@ immutable Clnt.tagpool by NewClnt
 //@ immutable Clnt.Msize by NewClnt Connect
+//@ immutable Clnt.Dotu by NewClnt Connect
 //@ immutable Clnt.conn by NewClnt
 //@ immutable Req.Clnt by (*Clnt).ReqAlloc (*Tag).reqAlloc
 //@ immutable Req.tag by (*Clnt).ReqAlloc (*Tag).reqAlloc
